@@ -283,6 +283,9 @@ structure Quirks where
       `BlockBase.match` restore everything and return None (the pinned code keeps it as
       content and goes on) -/
   endDoLabelMismatchFails : Bool := false
+  /-- a `match_labels` block without `match_names` (labelled DO) applies the name tests,
+      strictly, when its end statement can carry a name (`END DO`) -/
+  labelDoEndNames : Bool := false
   deriving Repr, DecidableEq, Inhabited
 
 structure Table where
@@ -625,6 +628,19 @@ def endNameCheck (cfg : Cfg) (sinf : Option NodeInfo) (inf : NodeInfo) : Option 
       else none
   else none
 
+/-- (repaired variant) `end_do_names`: a labelled DO closed by an `END DO` -/
+def endDoNames (q : Quirks) (cfg : Cfg) (sinf : Option NodeInfo) (inf : NodeInfo) : Bool :=
+  q.labelDoEndNames && cfg.matchLabels && !cfg.matchNames && inf.hasEndName &&
+    (match sinf with
+     | some si => si.hasStartName
+     | none => false)
+
+/-- the name tests at the end statement, including the labelled-DO case -/
+def endNameCheckQ (q : Quirks) (cfg : Cfg) (sinf : Option NodeInfo) (inf : NodeInfo) : Option Exc :=
+  if endDoNames q cfg sinf inf then
+    endNameCheck { cfg with matchNames := true, strictNames := true } sinf inf
+  else endNameCheck cfg sinf inf
+
 /-- the ticket-499 test; `none`: evaluating it raises -/
 def abort499 (tbl : Table) (cfg : Cfg) (sinf : Option NodeInfo) (inf : NodeInfo) : Option Bool :=
   if tbl.t499 cfg && inf.hasEndLabel then
@@ -707,7 +723,7 @@ def matchedStep (env : Env) (cfg : Cfg) (startT : Option Tree) (startName : Opti
             (.abort, restoreRc v.rc (restore t s1))
           else (.again i v2, s1)
         | .ok (v2, false) =>
-          match endNameCheck cfg sinf inf with
+          match endNameCheckQ env.tbl.quirks cfg sinf inf with
           | some e => (.raise e, s1)
           | none => (.done v2, s1)
       else
